@@ -53,7 +53,7 @@ the generated data, and write(decode(write(m))) == write(m); messages with a PDU
 second relation. Non-trivial = an attribute value containing an XML-special character or a list of >= 2 elements. \
 wellformed: batches of 200 such messages (drawn from the same strategy with a generator seeded from seed and batch index) through expat; every checked message counts as non-trivial; expat-available: one probe document (a missing python3/expat makes the run inconclusive). parsers: arbitrary \
 bytes, /repo/test-data/ca XML files and written messages under 0..6 XML-aware mutations into all six decoders; oracle = \
-no panic (accepted values are additionally written and walked). Writers: every message is also written with write_xml into a writer that takes 1-8 octets per call and a claimed success must deliver exactly the octets write_xml puts into a Vec (an error from write_xml is accepted: base64 content goes through base64's EncoderWriter, which documents WriteZero under short writes); what to_xml_string / to_xml_vec / to_xml_bytes write must parse back to the message as well.";
+no panic (accepted values are additionally written and walked). Writers: every message is also written with write_xml into a writer that takes 1-8 octets per call and a claimed success must deliver exactly the octets write_xml puts into a Vec (an error from write_xml is accepted: base64 content goes through base64's EncoderWriter, which documents WriteZero under short writes); what to_xml_string / to_xml_vec / to_xml_bytes write must parse back to the message as well. roundtrip also re-spells every written document three times (xmlrespell, as for C09, plus RFC 3339 time stamps with a numeric UTC offset): parsed to an equal message or refused; class names / tags include values of 100..600 characters, a third of them XML-special.";
 
 //------------ plain-data specs ---------------------------------------------------
 
